@@ -54,14 +54,17 @@ fn build(work: &Path, id: &str, spec: &str, grammar_json: &str, scanner: Option<
     writeln!(ops, "spec L-{id} {spec} @").unwrap();
     writeln!(ops, "nodetypes {id} {}", hex(node_types.as_bytes())).unwrap();
     writeln!(list, "lang {id} {} tree_sitter_{name} {}", libdir.join("lang.so").display(), small_table_len(&parser_c)).unwrap();
+    ops.flush().unwrap();
+    list.flush().unwrap();
     rust_api(&language, id, ops);
+    ops.flush().unwrap();
     Ok(Lang { id: id.to_string(), spec: spec.to_string(), language, grammar_json: grammar_json.to_string(), samples })
 }
 
 /// Answers of the Rust binding: look-ahead iterator of every state, name round trips of every id.
 fn rust_api(l: &Language, id: &str, ops: &mut impl Write) {
     for s in 0..l.parse_state_count() {
-        let syms: Vec<String> = l.lookahead_iterator(s as u16).map(|it| it.map(|x| x.to_string()).collect()).unwrap_or_default();
+        let syms: Vec<String> = l.lookahead_iterator(s as u16).map(|it| it.take(l.node_kind_count() + 8).map(|x| x.to_string()).collect()).unwrap_or_default();
         writeln!(ops, "rla {id} {s} {}", if syms.is_empty() { "-".to_string() } else { syms.join(",") }).unwrap();
     }
     for k in 0..l.node_kind_count() {
